@@ -17,7 +17,7 @@ var c05Ops = []string{
 	"create-struct", "create-slice", "create-map", "create-assoc", "create-batches-3/2", "create-batches-4/3", "create-batches-2/2",
 	"create-hooks", "create-hooks-slice", "save-new", "save-existing", "save-existing-upsert",
 	"update", "updates-struct", "updates-hooks", "delete", "delete-soft", "delete-hooks", "delete-hook-writes", "create-hook-writes", "update-hook-writes",
-	"create-assoc-full", "create-batches-session",
+	"create-assoc-full", "create-batches-session", "create-many2many", "delete-many2many-select", "create-many2many-full",
 }
 
 func N_C05_Ops(tier int) int { return len(c05Ops) }
@@ -52,6 +52,12 @@ func H_C05_Ops(shape int) {
 		res = db.Create(&Owner{Name: "o", Company: &Company{Name: "c"}, Profile: Profile{Bio: "b"}, Pets: []Pet{{Name: "p1"}, {Name: "p2"}}})
 	case "create-assoc-full":
 		res = db.Session(&gorm.Session{FullSaveAssociations: true}).Create(&Owner{Name: "o", Company: &Company{Name: "c"}, Pets: []Pet{{Name: "p1"}}})
+	case "create-many2many":
+		res = db.Create(&Speaker{Name: "s", Langs: []Lang{{Name: "go"}, {Name: "ml"}}})
+	case "create-many2many-full":
+		res = db.Session(&gorm.Session{FullSaveAssociations: true}).Create(&Speaker{Name: "s", Langs: []Lang{{ID: 4, Name: "go"}}})
+	case "delete-many2many-select":
+		res = db.Select("Langs").Delete(&Speaker{ID: 3, Name: "s"})
 	case "create-batches-3/2":
 		res = db.CreateInBatches(&[]Item{{Name: "a"}, {Name: "b"}, {Name: "c"}}, 2)
 	case "create-batches-4/3":
